@@ -319,7 +319,8 @@ pub fn run(a: &Args) -> Batch {
     let mut stats = std::collections::BTreeMap::<String, usize>::new();
     let mut projects: Vec<Project> = hproj::shipped_projects();
     projects.extend(hproj::legacy_cte_files());
-    let per_project = if a.thorough { usize::MAX } else { (a.n / projects.len().max(1)).max(3) };
+    // (every mutant carries the whole name-level document: the thorough tier is bounded too, or the shards exhaust memory)
+    let per_project = (a.n / projects.len().max(1)).max(3);
     for p in &projects {
         let parsed = match crate::guarded(std::panic::AssertUnwindSafe(|| p.src.parse())) {
             Ok(Ok(d)) => d,
@@ -399,7 +400,7 @@ pub fn run(a: &Args) -> Batch {
         if let Some(fw) = &first_wall {
             targets.push((fw.clone(), true));
         }
-        for w in walls_with_windows.iter().take(if a.thorough { usize::MAX } else { 2 }) {
+        for w in walls_with_windows.iter().take(if a.thorough { 8 } else { 2 }) {
             targets.push((w.clone(), false));
             if Some(w) == first_wall.as_ref() {
                 continue;
@@ -451,7 +452,7 @@ pub fn run(a: &Args) -> Batch {
         agree: "agree_C02x".into(),
         cases: cases.into_iter().map(|mut c| { if c.term.starts_with("(mkC02 ") { c.term = format!("(C02Doc {})", c.term); } else { c.term = c.term.replacen("(mkC02m ", "(C02Model ", 1); } c }).collect(),
         impl_findings: findings,
-        rule: "the 12 shipped .ctehexml projects (with the LIDER catalog) and the 56 legacy .cte files; for each, the name-level document extracted from the implementation's own parse, the conversion outcome, and every project obtained by renaming (header only) or removing one definition that another block refers to (materials, layers, constructions, gaps, glazings, frames, polygons, space / system conditions, yearly / weekly / daily schedules; spaces by rename), plus the window -> wall link (the first wall of the file removed, walls with windows removed or turned into UNDERGROUND-FLOOR blocks, with the document extracted again from the implementation's parse), sampled per project in the quick tier, exhaustive in thorough; converted models are checked for referential closure by the Coq predicate `closed`; non-trivial = a mutated project; distinct by content hash".into(),
+        rule: "the 12 shipped .ctehexml projects (with the LIDER catalog) and the 56 legacy .cte files; for each, the name-level document extracted from the implementation's own parse, the conversion outcome, and every project obtained by renaming (header only) or removing one definition that another block refers to (materials, layers, constructions, gaps, glazings, frames, polygons, space / system conditions, yearly / weekly / daily schedules; spaces by rename), plus the window -> wall link (the first wall of the file removed, walls with windows removed or turned into UNDERGROUND-FLOOR blocks, with the document extracted again from the implementation's parse), sampled per project (5 per project in the quick tier, 60 in the thorough tier); converted models are checked for referential closure by the Coq predicate `closed`; non-trivial = a mutated project; distinct by content hash".into(),
         stats: json!(stats),
     }
 }
